@@ -16,6 +16,7 @@ import Knee.Model.Elbow
 import Knee.Model.KneedleQ
 import Knee.Model.Isodata
 import Knee.Model.Matching
+import Knee.Model.Ranking
 /-
 Correspondence driver.  `lake env lean --run Driver.lean` (or the compiled `driver` exe).
 Harness → driver : `CALL <fn> <arg> <arg> …`
@@ -406,6 +407,15 @@ def dispatch (out inp : IO.FS.Stream) (fn : String) (args : List String) : M Str
     let E := ex.zip ey
     let K := kx.zip ky
     pure (showRat (maeQ st E K) ++ " " ++ showRat (mseQ2 st E K) ++ " " ++ showRat (rmspeSqQ st E K))
+  | "smooth_scores", [fit, hs] =>
+    let fit ← orErr (parseList? parseRat? fit) "fit"
+    let hs ← orErr (parseList? parseRat? hs) "heights"
+    pure (showList showRat (smoothScores fit hs))
+  | "corner_tri", [a, b, c] =>
+    let a ← pt2 a
+    let b ← pt2 b
+    let c ← pt2 c
+    pure (showRat (cornerTriQ a b c))
   | _, _ => throw s!"unknown call {fn}/{args.length}"
 
 partial def loop (out inp : IO.FS.Stream) : IO Unit := do
